@@ -11,7 +11,12 @@ the position is evaluated for the first time; so F must end with a runtime error
 stdout(H) cut before the first marker.
 (c) faults that depend on a runtime value, at a site that is evaluated several times and sees good operands first
 (loop over operands, a function called with good then bad arguments, operands taken from the records): the run
-must stop, with a runtime error, exactly at the first bad evaluation."""
+must stop, with a runtime error, exactly at the first bad evaluation.
+(d) bytes no token can start with (NUL and the other control characters, DEL, 0x80-0xBF, byte-order marks, other multi-byte
+sequences) spliced after complete rules (end of text, after the final newline, between two rules, before the first rule, a
+token boundary inside a rule), followed by nothing, more rules or text that is not a program: a syntax error, no output.
+(e) a container compared with ITSELF (the same variable, parameter, loop variable, member path, element, $, an alias) by each of
+== != < <= > >= is the same fault as comparing two distinct containers."""
 import re
 from framework import Check, Case
 from jqlib import run_case, simple_run, RunRes
@@ -122,13 +127,19 @@ FAULTS = {
     "depth": "inf(0)", "fill": "(match (1) { 1 => { qa = []\n qa[2000000] = 1 } })",
     "match-literal-vs-array": "(match ([1, 2]) { 0 => 1, q => 2 })", "match-literal-vs-object": "(match ({a: 1}) { \"a\" => 1, [x] => 2, q => 3 })",
     "match-literal-vs-nested": "(match ([[1]]) { [7] => 1, q => 2 })", "match-bool-vs-array": "(match ([]) { true => 1, q => 2 })",
+    "self-eq-array": "(match ([1]) { qv => qv == qv })", "self-ne-object": "(match ({a: 1}) { qv => qv != qv })",
+    "self-lt-array": "(match ([]) { qv => qv < qv })", "self-le-element": "(match ([[1], 2]) { qv => qv[0] <= qv[0] })",
+    "self-gt-member": "(match ({k: {}}) { qv => qv.k > qv.k })", "self-ge-object": "(match ({}) { qv => qv >= qv })",
+    "self-eq-nested-path": "(match ({k: [0, {j: [1]}]}) { qv => qv.k[1].j == qv.k[1].j })", "self-contains": "(match ([[1]]) { qv => qv.contains(qv[0]) })",
     "tilde-number": "(1 ~ 5)", "object-index": "({a: 1}[[1]])", "array-key-store": "(match (1) { 1 => { qa = []\n qa[\"k\"] = 1 } })",
 }
 # ---- faults that are statements (position "stmt" only)
 STMT_FAULTS = {
     "forin-number": "for (qv in 5) { print \"never\" }", "member-store-scalar": "qs = 5\n qs.y = 1", "incdec-scalar-member": "qs = 5\n qs.y++",
     "incdec-prefix": "qs = true\n qt = ++qs.k", "fill": "qa = [1]\n qa[1048577] = 1", "forin-null": "for (a1, b1 in null) { }",
-    "div0-compound": "qd = 1\n qd /= 0", "nested-store": "qs = 5\n qs.a.b = 1", "bool-index-store": "qs = true\n qs[0] = 1",
+    "div0-compound": "qd = 1\n qd /= 0",
+    "self-compare-var": "qa = [1, 2]\n qb = qa == qa", "self-compare-alias": "qa = {a: 1}\n qb = qa\n qc = qb <= qb", "self-compare-member": "qo = {k: [1]}\n if (qo.k != qo.k) { print \"never\" }",
+    "self-compare-loopvar": "for (qv in [[1]]) { qb = qv >= qv }", "self-compare-negindex": "qa = [1, [2]]\n qb = qa[-1] > qa[-1]", "nested-store": "qs = 5\n qs.a.b = 1", "bool-index-store": "qs = true\n qs[0] = 1",
 }
 
 # ------------------------------------------------------------------ (c) the same site evaluated several times, faulty only later
@@ -150,6 +161,17 @@ LATER_SITES = [
     ("compare-left", "x = r < 2", ["1", "3", "\"a\"", "null"], "[1]", "", True),
     ("compare-right", "x = 2 >= r", ["\"a\"", "null", "true"], "{}", "", True),
     ("equality", "x = r == 1", ["1", "\"1\"", "null"], "[]", "", True),
+    ("self-eq", "x = r == r", ["1", "\"a\"", "null", "true"], "[1]", "", True),
+    ("self-ne", "x = r != r", ["1", "\"a\"", "null"], "{}", "", True),
+    ("self-lt", "x = r < r", ["1", "\"a\"", "null", "false"], "[]", "", True),
+    ("self-le", "x = r <= r", ["2.5", "\"\"", "null"], "{a: 1}", "", True),
+    ("self-gt", "x = r > r", ["0", "\"b\"", "true"], "[[1]]", "", True),
+    ("self-ge", "x = r >= r", ["1", "\"a\"", "null"], "[1, 2]", "", True),
+    ("self-eq-in-call", "x = lab(r == r)", ["1", "\"a\""], "[1]", ["true\n", "true\n"], True),
+    ("self-ne-cond", "if (r != r) { print \"never\" }", ["1", "null"], "{k: 1}", "", True),
+    ("self-alias", "t = r\n x = t == t", ["1", "\"a\""], "[1]", "", True),
+    ("self-boxed", "o = {k: r}\n x = o.k <= o.k", ["1", "null"], "[]", "", True),
+    ("self-element", "arr = [0, r]\n x = arr[1] >= arr[-1]", ["1", "\"a\""], "{}", "", True),
     ("forin-iterable", "for (q in r) { n++ }", ["[1]", "\"ab\"", "{}"], "5", "", True),
     ("forin-null", "for (q, w in r) { n++ }", ["[1, 2]", "{}"], "null", "", True),
     ("member-store-base", "r.k = 1", ["{}", "{a: 1}"], "5", "", True),
@@ -264,6 +286,87 @@ CTX_SYNTAX = [("return 1", "nofunc"), ("return", "nofunc"), ("if (true) { return
 BAD_TOKENS = ["@", "?", "^", " & ", " | ", "`", "\\"]
 
 
+# ---- (d) bytes that cannot start a token.  The lexer reads the text byte by byte; letters and digits are judged on the byte
+# value, so 0xAA, 0xB5, 0xBA and 0xC0-0xFF (Latin-1 letters, UTF-8 lead bytes) may be part of a name: only "maybe" errors.
+CERTAIN_BYTES = ([bytes([b]) for b in list(range(0, 9)) + [0x0B, 0x0C] + list(range(0x0E, 0x20)) + [0x7F]]
+                 + [bytes([b]) for b in range(0x80, 0xC0) if b not in (0xAA, 0xB5, 0xBA)])
+CERTAIN_SEQS = [b"\xef\xbb\xbf", b"\xff\xfe\x00\x00", b"\xc2\xa0", b"\xe2\x80\xa8", b"\xe2\x80\xa9", b"\xc2\x85", b"\xe2\x80\x8b",
+                b"\x00\x00", b"\x00\x00\x00\x00", b"\xc0\x80", b"\xf0\x9f\x98\x80", b"\x1b[0m", b"\x00B\x00E\x00G\x00I\x00N", b"\x1a", b"\x04\n", b"\xe3\x80\x80"]
+MAYBE_BYTES = [bytes([b]) for b in [0xAA, 0xB5, 0xBA] + list(range(0xC0, 0x100))] + [b"\xfe\xff", b"\xff\xfe", b"\xc3\xa9", b"\xce\xbb"]
+BYTE_BASES = [
+    "BEGIN { print \"ran\" }",
+    "BEGIN { print \"B\" }\n{ print \"P\", $ }\nEND { print \"Z\" }",
+    "function f(a) { print \"F\", a\n return a }\nBEGIN { f(1) }\n$ > 1 { print \"P\", f($) }\nEND { print \"Z\" }",
+    "BEGIN { print \"B\" }\nBEGINFILE { print \"F1\" }\n{ print \"P\", $ }\nENDFILE { print \"G1\" }\nEND { print \"Z\" }",
+    "BEGIN { print \"B\" } BEGIN { x = [1, 2]; print x } END { print \"Z\" }",
+    "BEGIN { print \"s\" } # a comment\n{ print $ }",
+]
+BYTE_FOLLOW = [b"", b"\n", b" ", b" ) this is = not a { program\n", b"\nEND { print \"after\" }\n", b"BEGIN { print 1 }", b"}", b"\n\n# comment\n", b"\"", b"x = 1"]
+
+
+def rule_ends(src):
+    """offsets just after each top-level closing brace (no braces inside the strings of BYTE_BASES)"""
+    out, d = [], 0
+    for i, c in enumerate(src):
+        if c == "{":
+            d += 1
+        elif c == "}":
+            d -= 1
+            if d == 0:
+                out.append(i + 1)
+    return out
+
+
+def byte_splices(rng, quick):
+    """yields (prog bytes, where, certain)"""
+    out = []
+
+    def place(seq, base, where, follow):
+        b = base.encode()
+        ends = rule_ends(base)
+        if where == "end":
+            return b + seq + follow
+        if where == "after-final-newline":
+            return b + b"\n" + seq + follow
+        if where == "after-blank":
+            return b + rng.choice([b" ", b"\t", b"\n\n", b" \n ", b"\r\n"]) + seq + follow
+        if where == "between-rules":
+            e = rng.choice(ends)
+            return b[:e] + b"\n" + seq + follow + b"\n" + b[e:]
+        if where == "glued-to-rule":
+            e = rng.choice(ends)
+            return b[:e] + seq + b[e:]
+        if where == "start":
+            return seq + follow + b"\n" + b
+        toks = tokens(base)
+        i = rng.randrange(1, len(toks))
+        return "".join(toks[:i]).encode() + seq + "".join(toks[i:]).encode()
+
+    places = ["end", "after-final-newline", "after-blank", "between-rules", "glued-to-rule", "start", "token-boundary"]
+    for certain, seqs in ((True, CERTAIN_BYTES + CERTAIN_SEQS), (False, MAYBE_BYTES)):
+        for seq in seqs:
+            nul = seq[:1] == b"\x00"
+            for where in places:
+                if not certain and where not in ("end", "between-rules", "token-boundary"):
+                    continue
+                if nul:
+                    combos = [(b, f) for b in BYTE_BASES for f in BYTE_FOLLOW]
+                    if quick:
+                        combos = rng.sample(combos, 12)
+                else:
+                    combos = [(rng.choice(BYTE_BASES), rng.choice(BYTE_FOLLOW)) for _ in range((2 if certain else 1) * (1 if quick else 6))]
+                for base, follow in combos:
+                    if where == "token-boundary" and "#" in base:
+                        continue            # a boundary inside the comment is not a token boundary
+                    out.append((place(seq, base, where, follow), "bytes %r %s, followed by %r" % (seq, where, follow), certain))
+    # the same bytes where they are ordinary text: inside a string, inside a comment (no claim beyond 'a syntax error prints nothing')
+    for seq in (CERTAIN_BYTES + CERTAIN_SEQS if not quick else rng.sample(CERTAIN_BYTES, 12) + [b"\x00", b"\xef\xbb\xbf"]):
+        out.append((b"BEGIN { print \"a" + seq + b"b\" }\nEND { print \"Z\" }", "bytes %r inside a string" % seq, None))
+        out.append((b"BEGIN { print \"a\" } # " + seq + b" x\nEND { print \"Z\" }", "bytes %r inside a comment" % seq, None))
+        out.append((b"BEGIN { print \"a\" }\n# " + seq, "bytes %r inside a final comment" % seq, None))
+    return out
+
+
 def build(host, nest, stmt, fn2=True):
     body = nest[1] % stmt
     prog = PRE + ("function fn2(a, b, c) { return b }\n" if fn2 else "") + host[1] % body
@@ -275,11 +378,15 @@ class C11(Check):
     props = ["C11_faults.v"]
     rule = ("(a) tracing programs with a syntax error spliced at a statement or token boundary (static rejections, illegal tokens, random "
             "token deletions/insertions), after 0-40 valid rules: syntax outcome implies empty stdout, grammatical errors must be syntax "
-            "errors; (b) 25 runtime fault kinds x 53 evaluated positions (operand slots, arguments, literal elements, indexes, "
+            "errors; (b) 39 runtime fault kinds x 53 evaluated positions (operand slots, arguments, literal elements, indexes, "
             "conditions, every for clause, for-in iterable, match subject/body, return, rule pattern, selector) x 10 hosts (rule kinds, "
             "functions) x 10 nests (if/else, loops, match block), each paired with a twin whose fault is replaced by a marker-printing call: "
-            "outcome runtime and stdout = the twin's stdout cut before the first marker; (c) 30 value-dependent faults at a site evaluated "
-            "several times, bad only on a later evaluation, delivered by 9 mechanisms (loops over operands, repeated calls, records). non-trivial = output before the fault is "
+            "outcome runtime and stdout = the twin's stdout cut before the first marker; (c) 43 value-dependent faults at a site evaluated "
+            "several times, bad only on a later evaluation, delivered by 9 mechanisms (loops over operands, repeated calls, records); (d) every byte "
+            "no token starts with (controls, DEL, 0x80-0xBF, BOMs, multi-byte sequences) after complete rules (end, after the final newline, "
+            "between rules, glued to a rule, start, token boundary) followed by nothing / rules / junk: syntax error and no output; (e) a container "
+            "compared with itself (same variable, parameter, path, element, alias) by all six operators faults like any container comparison. "
+            "non-trivial = output before the fault is "
             "non-empty and a statement follows it")
 
     def project(self, r):
@@ -295,7 +402,10 @@ class C11(Check):
         def add(prog, inputs, sels, meta, tags=(), nontrivial=True):
             cid = "f%d" % kk[0]
             kk[0] += 1
-            meta = dict(meta, prog=prog, inputs=inputs, selectors=sels)
+            if isinstance(prog, bytes):
+                meta = dict(meta, prog=prog.decode("latin-1"), prog_hex=prog.hex(), inputs=inputs, selectors=sels)
+            else:
+                meta = dict(meta, prog=prog, inputs=inputs, selectors=sels)
             cases.append(Case(cid, simple_run(cid, prog, inputs, sels, True), meta, nontrivial, tags))
             return cid
 
@@ -412,6 +522,12 @@ class C11(Check):
                     prog = base[:cut]
                     what = "truncated at byte %d" % cut
                 add(prog, rng.choice(INPUTS), [], {"role": "mutant", "splice": what}, ("syntax-maybe",), False)
+        # ------------------------------------------------------------ (d) bytes that start no token, after valid rules
+        for prog, what, certain in byte_splices(rng, quick):
+            if certain:
+                add(prog, rng.choice(INPUTS), [], {"role": "syntax", "splice": what}, ("syntax-certain", "bytes"))
+            else:
+                add(prog, rng.choice(INPUTS), [], {"role": "mutant", "splice": what}, ("syntax-maybe", "bytes"), False)
         # a mutant may loop up to the fuzzing limit while printing; such output-heavy runs are judged on the implementation alone
         mut = {c.id: c for c in cases if c.meta["role"] == "mutant"}
         pre, light = prescreen({i: c.line for i, c in mut.items()})
